@@ -158,6 +158,25 @@ def ordering_problems(dev, com, mapi, enabled, n_map):
     return probs
 
 
+def _od_vars(od):
+    from canopen.objectdictionary import ODVariable
+    for o in od.values():
+        if isinstance(o, ODVariable):
+            yield o
+        else:
+            for v in o.values():
+                yield v
+
+
+def _od_snapshot(od):
+    return [(v.index, v.subindex, v.value, v.default, getattr(v, "value_raw", None)) for v in _od_vars(od)]
+
+
+def _od_restore(od, snap):
+    for v, (_, _, val, dfl, raw) in zip(_od_vars(od), snap):
+        v.value, v.default = val, dfl
+
+
 def one_save(case, st, od, dev, kind, num, com, mapi, cfg, rc, read_first=True, node=None, reconfigure=True):
     cob, enabled, rtr, tt, timers, mp = cfg
     if node is None:
@@ -169,7 +188,14 @@ def one_save(case, st, od, dev, kind, num, com, mapi, cfg, rc, read_first=True, 
     st.states += 1
     try:
         if read_first:
+            snap = _od_snapshot(od)
             m.read()
+            if _od_snapshot(od) != snap:
+                # the dictionary is the caller's (its values are what read(from_od=True) / load_configuration use)
+                diff = [(a, b) for a, b in zip(snap, _od_snapshot(od)) if a != b][:2]
+                st.violation("C09:read-changed-the-object-dictionary", rc, "dictionary untouched by read()", diff)
+                _od_restore(od, snap)
+                return None
         dev.log.clear()
         if reconfigure:
             m.cob_id, m.enabled, m.rtr_allowed, m.trans_type = cob, enabled, rtr, tt
